@@ -439,6 +439,7 @@ func runC15(c *Ctx) {
 		ruleKeyTypeAgreement(c, "C15.8")
 		c04PageLSN(c, "C15.9")
 		ruleCapacityAsGiven(c, "C15.10")
+		ruleSetCacheStores(c, "C15.11")
 	}
 }
 
